@@ -145,3 +145,9 @@ func NamedSSRCs(raw []byte) []uint32 {
 	}
 	return out
 }
+
+// RawXRDLRR is an extended report from sender carrying one DLRR sub-block addressed to ssrc.
+func RawXRDLRR(sender, ssrc, lastRR, dlrr uint32) []byte {
+	return mustMarshal(&rtcp.ExtendedReport{SenderSSRC: sender, Reports: []rtcp.ReportBlock{
+		&rtcp.DLRRReportBlock{Reports: []rtcp.DLRRReport{{SSRC: ssrc, LastRR: lastRR, DLRR: dlrr}}}}})
+}
